@@ -294,6 +294,7 @@ func ruleSearchTemplates(r *Run, rule string) {
 	if !ok {
 		return
 	}
+	paths = OwnOnly(paths) // the evaluator models the helpers it knows (replaceWithIDs) itself
 	type agg struct {
 		templates map[string]bool
 		probs     map[string]bool
